@@ -509,7 +509,7 @@ impl TypedScenario for C05Raw {
     fn budget(&self, tier: Tier) -> usize {
         match tier {
             Tier::Quick => sweep().len() + 3000,
-            Tier::Thorough => sweep().len() + 300_000,
+            Tier::Thorough => sweep().len() + 1_500_000,
         }
     }
     fn generate(&self, seed: u64, index: usize, tier: Tier) -> Plan {
